@@ -412,7 +412,25 @@ pub fn c12(a: &Args) {
             _ => rng.pick(&paras[..]).clone(),
         };
         if d.starts_with('\n') { continue; }
-        jobs.push((p, d));
+        jobs.push((p.clone(), d.clone()));
+        // targeted shapes across the break: D starts with P's last word (repetition), with a lower-case
+        // word (capitalisation), with a vowel/consonant word after P ends in a/an, with a number
+        // suffix, a closing bracket, a conjunction ...
+        if i % 4 == 0 {
+            let body = p.trim_end();
+            let body = body.trim_end_matches(['.', '!', '?']);
+            if let Some(last) = body.split(|c: char| !c.is_alphanumeric() && c != '\'').filter(|w| !w.is_empty()).last() {
+                jobs.push((p.clone(), format!("{last} {}", d)));
+                jobs.push((p.clone(), format!("{} again and {}", last.to_lowercase(), d)));
+            }
+            for head in ["a", "an", "the the", "and", "apple", "then", "of", "to", "st", "s", "i", "its", "and, so", "however", "1", "th"] {
+                if rng.chance(1, 6) { jobs.push((p.clone(), format!("{head} {}", d))); }
+            }
+            // P ending in a word that pairs up with D's first word in some rule
+            for tail in ["It was a.", "He had an.", "This is the.", "We want to.", "They could.", "There is.", "I saw the the.", "She is better.", "It is more.", "Back in the.", "Last but not."] {
+                if rng.chance(1, 8) { jobs.push((format!("{} {}\n\n", body, tail), d.clone())); }
+            }
+        }
     }
     let evs = par_map(jobs.len(), a.num("threads", 12) as usize, |_| front::all_rules_group(Dialect::American), |lg, i| {
         let (p, d) = &jobs[i];
